@@ -4,6 +4,7 @@ import Sylvia.Model.Strip
 import Sylvia.Model.Dispatch
 import Sylvia.Model.Runtime
 import Sylvia.Model.Reply
+import Sylvia.Model.Facts
 /-! Driver operations over the current program. -/
 namespace Driver
 open Sylvia Gen
@@ -337,6 +338,39 @@ def opRt (st : State) (rest : String) : String :=
     | _, _ => "bad-op"
   | _ => "bad-op"
 
+-- ------------------------------------------------------------------------------------------------
+-- expansion facts (L1)
+-- ------------------------------------------------------------------------------------------------
+def fieldJ (f : Facts.FieldFact) : Json := .obj [("name", .str f.name), ("ty", .str f.ty), ("attrs", jsonStrList f.attrs)]
+def variantJ (v : Facts.VariantFact) : Json :=
+  .obj [("name", .str v.name), ("attrs", jsonStrList v.attrs), ("fields", .arr (v.fields.map fieldJ))]
+def msgJ (m : Facts.MsgFact) : Json :=
+  .obj [("name", .str m.name), ("generics", jsonStrList m.generics), ("wheres", jsonStrList m.wheres), ("attrs", jsonStrList m.attrs),
+        ("variants", .arr (m.variants.map variantJ)), ("dispatch_generics", jsonStrList m.dispatchGenerics)]
+
+/-- `facts contract` / `facts iface <module>` -/
+def opFacts (st : State) (rest : String) : String :=
+  match splitN rest 2 with
+  | ["contract"] | ["contract", _] =>
+    let c := st.contract
+    let enums := [Kind.exec, .query, .sudo].map fun k => msgJ (Facts.contractEnum k c)
+    let structs := [Kind.instantiate, .migrate].filterMap fun k => (Facts.contractStruct k c).map msgJ
+    let lists := [Kind.exec, .query, .sudo].map fun k => jsonStrList (Gen.nameList k c.methods)
+    let (tbl, diags) := replyTbl st
+    let rids := if c.replies then tbl.map (fun e => Json.str e.id) else []
+    (Json.obj [("msgs", .arr (enums ++ structs)), ("lists", .arr lists), ("reply_ids", .arr rids),
+               ("api", .obj ((Facts.contractApi c).map fun (k, v) => (k, Json.str v))),
+               ("reply_diags", .num (toString (if c.replies then diags.length else 0)))]).render
+  | ["iface", m] =>
+    match st.ifaces.find? (·.1 == m) with
+    | some (_, i) =>
+      let enums := [Kind.exec, .query, .sudo].map fun k => msgJ (Facts.interfaceEnum k i)
+      let lists := [Kind.exec, .query, .sudo].map fun k => jsonStrList (Gen.nameList k i.methods)
+      (Json.obj [("msgs", .arr enums), ("lists", .arr lists),
+                 ("api", .obj ((Facts.interfaceApi i).map fun (k, v) => (k, Json.str v)))]).render
+    | none => "bad-op"
+  | _ => "bad-op"
+
 def step (st : State) (line : String) : State × Option String :=
   let (op, rest) := splitOp line
   match op with
@@ -351,6 +385,7 @@ def step (st : State) (line : String) : State × Option String :=
   | "reset" => ({}, some "ok")
   | "ep" => (st, some (opEp st))
   | "strip" => (st, some (opStrip rest))
+  | "facts" => (st, some (opFacts st rest))
   | "rids" => (st, some (opRids st))
   | "reply" => (st, some (opReply st rest))
   | "submsg" => (st, some (opSubmsg st rest))
